@@ -59,6 +59,12 @@ func SafeRun(p *Property, env *Env, c any) (out Outcome) {
 	defer func() {
 		if r := recover(); r != nil {
 			st := string(debug.Stack())
+			if msg := fmt.Sprint(r); strings.HasPrefix(msg, "generator produced") || strings.HasPrefix(msg, "harness:") {
+				// a defect of the harness, not of gopatch: never a verdict
+				out = Outcome{Skip: "HARNESS-BUG: " + firstLineOf(msg)}
+				fmt.Fprintf(os.Stderr, "HARNESS-BUG: %s\n", msg)
+				return
+			}
 			out = Outcome{
 				Violation:  fmt.Sprintf("panic: %v", r),
 				FindingKey: "panic@" + PanicSite(st),
@@ -68,6 +74,13 @@ func SafeRun(p *Property, env *Env, c any) (out Outcome) {
 		}
 	}()
 	return p.Run(env, c)
+}
+
+func firstLineOf(s string) string {
+	if i := strings.IndexByte(s, '\n'); i >= 0 {
+		return s[:i]
+	}
+	return s
 }
 
 // PanicSite extracts the innermost gopatch frame of a stack trace.
